@@ -21,6 +21,8 @@ mod store_key;
 mod store_prefix;
 
 pub mod byte_range;
+#[cfg(zarrs_verif)]
+pub mod verif_hooks;
 use byte_range::{ByteOffset, ByteRange, InvalidByteRangeError};
 
 #[cfg(feature = "async")]
